@@ -191,3 +191,66 @@ Theorem C10_7z_end_header_terminates :
     (List.length hdr < fuel)%nat -> parse_end_header T lzma_alone lzma2_raw fuel body hdr <> PFuel.
 Proof. intros. apply parse_end_header_terminates. assumption. Qed.
 Print Assumptions C10_7z_end_header_terminates.
+
+(* ---------------------------------------------------------------- parse-after-serialise round trips (C10/Ser.v = the
+   harness's 7z writer as Coq functions; C10/RoundTrip.v).  Proved so far: the number codec in full, the primitive
+   readers, and the whole MainStreamsInfo section (PackInfo, UnpackInfo with coder flags/properties, SubStreamsInfo with
+   the per-folder size bookkeeping) down to the reader state the member theorems start from.  NOT yet proved: the
+   FilesInfo property loop and the composition through _parse_main_header/_parse_end_header/_parse_header, hence no
+   `C10_7z_members_exact_from_bytes` yet (the end-to-end tie from archive bytes remains the differential run). *)
+From S2T Require Import C10.Ser C10.RoundTrip.
+
+(* _read_number inverts the writer's num() for every 7z number (n < 2^64, all nine byte-length classes) *)
+Theorem C10_7z_number_roundtrip :
+  forall (n : N) (rest : bytes), num_ok n = true -> r_number (enc_num n ++ rest) = POk n rest.
+Proof. exact r_number_enc. Qed.
+Print Assumptions C10_7z_number_roundtrip.
+
+Example C10_7z_number_ok_satisfiable : num_ok 18446744073709551615 = true /\ num_ok 0 = true.
+Proof. split; reflexivity. Qed.
+Print Assumptions C10_7z_number_ok_satisfiable.
+
+(* UTF-16LE names and packed bit vectors *)
+Theorem C10_7z_name_roundtrip :
+  forall (name : str) (rest : bytes) (fuel : nat),
+    wf_name name = true -> (List.length (utf16 name ++ rest) < fuel)%nat -> r_name fuel (utf16 name ++ rest) = POk name rest.
+Proof. intros. apply r_name_utf16; assumption. Qed.
+Print Assumptions C10_7z_name_roundtrip.
+
+Theorem C10_7z_bitvector_roundtrip :
+  forall (bits : list bool) (rest : bytes), r_boolvec (lenN bits) (pack_bits bits ++ rest) = POk bits rest.
+Proof. exact r_boolvec_pack. Qed.
+Print Assumptions C10_7z_bitvector_roundtrip.
+
+(* MainStreamsInfo: parsing what the writer serialised for (pack info, folders, SubStreamsInfo, digests) yields exactly
+   the reader state the header description stands for — _pack_sizes, _folders, num_streams and _file_sizes as computed
+   by the model of _parse_substreams_info (file_sizes / num_streams of C10/Model.v) *)
+Theorem C10_7z_streams_info_roundtrip :
+  forall pk fl ss crcs rest fuel,
+    match pk with Some p => wf_pack p | None => true end = true ->
+    num_ok (lenN fl) = true -> forallb wf_folder fl = true ->
+    match ss with Some x => wf_ss fl x crcs | None => true end = true ->
+    (List.length (streams_body_bytes pk fl ss crcs ++ rest) < fuel)%nat ->
+    exists sz, file_sizes rev_new fl ss = Some sz /\
+      parse_streams_info fuel st0 (streams_body_bytes pk fl ss crcs ++ rest)
+      = POk {| p_pack := pk; p_folders := fl; p_nstreams := num_streams fl ss; p_sizes := sz; p_files := [] |} rest.
+Proof. exact streams_info_rt. Qed.
+Print Assumptions C10_7z_streams_info_roundtrip.
+
+(* the bytes of that theorem are the writer's: ser_streams = 0x04 ++ streams_body_bytes *)
+Theorem C10_7z_ser_streams_shape :
+  forall h crcs, negb (match h_pack h, h_folders h with None, [] => true | _, _ => false end) = true ->
+    ser_streams h crcs = 4 :: streams_body_bytes (h_pack h) (h_folders h) (h_ss h) crcs.
+Proof.
+  intros h crcs H. unfold ser_streams, streams_body_bytes, ser_pack, ser_unpack, ser_ss, unpack_body_bytes, ss_body_bytes,
+    crc_bytes, pack_body_bytes.
+  destruct (h_pack h) as [pk|]; destruct (h_folders h) as [|f fl]; try discriminate H;
+    destruct (h_ss h); repeat (rewrite <- app_assoc || cbn [app]); reflexivity.
+Qed.
+Print Assumptions C10_7z_ser_streams_shape.
+
+(* the well-formedness hypotheses hold for the header of a standard two-folder archive *)
+Example C10_7z_wf_header_satisfiable :
+  wf_header (pack7z true 16 32 0 L2) (Some (repeat 0 8)) None true = true.
+Proof. vm_compute. reflexivity. Qed.
+Print Assumptions C10_7z_wf_header_satisfiable.
